@@ -27,6 +27,8 @@ from engine.framework import Check, Violation, Inconclusive
 import c09
 from c09 import FieldModel, bv, QV, Q
 
+sys.modules.setdefault("c10", sys.modules[__name__])      # checks/c10_sampling.py imports this module by name (one program, one build)
+
 B = "embedded_pairing::bls12_381::"
 CORE = "embedded_pairing::core::"
 ANY = r"\(.*\)"
@@ -38,10 +40,10 @@ FILES = ["src/bls12_381/curve.cpp", "src/bls12_381/fq.cpp", "src/bls12_381/fr.cp
          "src/bls12_381/bls12_381.cpp", "src/lqibe/api.cpp"]
 
 
-def prog():
-    if "p" not in _PROG:
-        _PROG["p"] = build.load_program("A", files=FILES, tag="c10")
-    return _PROG["p"]
+def prog(cfg="A"):
+    if cfg not in _PROG:
+        _PROG[cfg] = build.load_program(cfg, files=FILES, tag="c10_" + cfg)
+    return _PROG[cfg]
 
 
 def short(P, f):
@@ -91,8 +93,8 @@ def decide(I, pc, axioms, goal, what, timeout=120000):
 # ---------------------------------------------------------------------------------------------------------------
 # (1) zp_from_hash
 # ---------------------------------------------------------------------------------------------------------------
-def ob_zp_from_hash():
-    P = prog()
+def ob_zp_from_hash(cfg="A"):
+    P = prog(cfg)
     f = P.find1(r"embedded_pairing_bls12_381_zp_from_hash")
     I = eir.Interp(P)
     I.solver.set("timeout", 120000)
@@ -103,7 +105,7 @@ def ob_zp_from_hash():
         h = Obj("hash", 32, "arg", 1, True)
         for i in range(32):
             h.cells[i] = (1, hb[i])
-        out = Obj("zp", 32, "arg", 8)
+        out = Obj("zp", 32, "arg", 16)             # embedded_pairing_core_bigint_256_t contains unsigned __int128 words
         I.call_named(f, [Ptr(out, 0), Ptr(h, 0)])
         return eir.as_bv(I.load_bytes(out, 0, 32), 256)
     rv = z3.BitVecVal(R_ORDER, 256)
@@ -137,6 +139,12 @@ def field_interp(P):
     I = eir.Interp(P)
     F = FieldModel()
     c09.install(I, F)
+    # operations c09's model does not need: uninterpreted as well (so that a changed candidate update is seen as such, not as an unsupported call)
+    for deg, C in ((1, c09.FQ), (2, B + "Fq2")):
+        S = z3.BitVecSort(384 * deg)
+        for op, ar in (("subtract", 2), ("multiply2", 1)):
+            uf = z3.Function("%s%d" % (op, deg), *([S] * (ar + 1)))
+            I.add_intercept(C + "::" + op + ANY, (lambda I_, n, a, s, deg=deg, uf=uf, ar=ar: I_.fwr(deg, a[0], uf(*[I_.frd(deg, x) for x in a[1:1 + ar]]))), "F%d::%s" % (deg, op))
     I.external_handler = asm_kernels(I)
     I.lazy_feasibility = 300
     return I, F
@@ -173,7 +181,7 @@ def ob_get_point_from_x(grp, checked):
     n = feas = 0
     for path, (ret, this) in I.explore(once, 64):
         n += 1
-        ax = c09.field_axioms(F)
+        ax = c09.field_axioms(F) + [U["sq"](F.neg(deg, r_)) == U["sq"](r_) for (d_, s_, r_) in F.seen_sqrt]       # (-a)^2 = a^2
         r, _ = decide(I, path.pc, ax, z3.BoolVal(False), "path feasibility")
         if r != z3.sat:
             continue
@@ -332,10 +340,10 @@ def ob_try_and_increment(grp):
                       "termination (some start+j is on the curve) is out of scope" % (n, exits, cuts)}
 
 
-def ob_from_hash(grp):
+def ob_from_hash(grp, cfg="A"):
     """from_hash: read_big_endian (spec: the stored representative m of (int(bytes) mod 2^381) mod q, m < q), then hash_reduce on m FOR REAL,
     then try_and_increment(start, greater).  Decides: start is still m; which function of the hash the greater flag is."""
-    P = prog()
+    P = prog(cfg)
     deg = DEG[grp]
     f = P.find1(B + AFF[grp] + r"::from_hash" + ANY)
     I = eir.Interp(P)
@@ -498,6 +506,11 @@ def ob_compute_id():
     I.add_intercept(r"void " + B + r"G1::multiply<" + B + r"G1Affine>\(.*BigInt<128> const&\)", h_mul, "G1::multiply<G1Affine>(BigInt<128>)")
     I.add_intercept(B + AFF["G1"] + r"::from_projective" + ANY, h_fp, "from_projective")
 
+    def h_other(I_, name, args, site):
+        raise Violation("compute_id:path", "compute_id_from_hash multiplies through %s instead of the 128-bit cofactor routine "
+                        "(the 256-bit routine uses the endomorphism, which is only valid inside the order-r subgroup)" % I_.prog.demangled[name].replace("embedded_pairing::", "")[:90], {})
+    I.add_intercept(r".*(?:G1|Projective<" + B + r"Fq>)::(?:multiply|from_affine).*", h_other, "other multiplication")
+
     def bad(name, args, site):
         raise Violation("compute_id:path", "compute_id_from_hash reaches %s" % name, {})
     I.external_handler = lambda I_, name, args, site: bad(name, args, site)
@@ -534,14 +547,27 @@ def register(chk):
     chk.add("compute_id_from_hash", ob_compute_id)
     import c10_sampling
     c10_sampling.register(chk)
+    if chk.tier == "thorough":
+        # the portable back ends (64- and 32-bit words) of the byte/word-level obligations: same results on every platform
+        for cfg in ("P64", "P32"):
+            chk.add("%s:zp_from_hash" % cfg, ob_zp_from_hash, cfg)
+            for grp in ("G1", "G2"):
+                chk.add("%s:from_hash:%s" % (cfg, grp), ob_from_hash, grp, cfg)
+            chk.add("%s:Fr::random" % cfg, c10_sampling.ob_fp_random, "Fr", cfg)
+            chk.add("%s:Fq::random" % cfg, c10_sampling.ob_fp_random, "Fq", cfg)
 
 
 def main(argv=None):
     chk = Check("C10", "proof", argv)
     chk.replayer = replay_c10
     prog()
+    if chk.tier == "thorough":
+        prog("P64")
+        prog("P32")
     register(chk)
-    chk.explanation = __doc__.strip()
+    import c10_sampling
+    import c10_words
+    chk.explanation = "\n\n".join(d.strip() for d in (__doc__, c10_sampling.__doc__, c10_words.__doc__))
     chk.bounds = ["all 32/48/96-byte hash inputs (symbolic bytes); all random byte streams (the callback stub returns fresh symbolic bytes on every call)",
                   "data-dependent loops: try_and_increment cut at its header (one inductive step from an arbitrary candidate); rejection loops cut as retry "
                   "loops with the independence of iterations checked (engine/retrycut.py); loops with concrete trip counts run in full",
@@ -550,8 +576,12 @@ def main(argv=None):
     chk.trusted = ["field layer: Fq/Fq2 square, multiply, add, legendre, square_root as uninterpreted functions with T5 (sqrt contract) and 'no zero divisors' "
                    "instances; Fq::read_big_endian = (int mod 2^381) mod q with canonical stored representative (C02, C04, C09)",
                    "C03: the x86-64 kernels bigint_384_add/subtract meet their bit-vector specification",
+                   "C02: BigInt<256>::add and BigInt<256>::compare meet their integer specification (used when PowersOfX::random is composed from the "
+                   "specifications of the BigInt operations; the 64/128/192-bit instantiations are decided here, checks/c10_words.py)",
                    "group layer for the sampling of generators: G::multiply<Affine>(P, c) = [c]P (C06), Projective::is_zero decides identity (C05)",
                    "T10: #E(Fq) = h1 r, #E'(Fq2) = h2 r with r prime, so [h]P lies in the order-r subgroup", "z3"]
+    chk.assumptions = ["field operands are canonical (class invariant of Fq/Fq2, C02/C04)",
+                       "the random source writes exactly the n bytes it is asked for (caller's contract); its bytes are unconstrained"]
     chk.run()
     chk.finish()
 
